@@ -68,6 +68,7 @@ struct RegistryT<
 	HFSM2_CONSTEXPR(14)	bool  isPendingEnter	(const StateID stateId)	  const noexcept;
 	HFSM2_CONSTEXPR(14)	bool  isPendingChange	(const StateID stateId)	  const noexcept;
 	HFSM2_CONSTEXPR(14)	bool  isPendingExit		(const StateID stateId)	  const noexcept;
+	HFSM2_CONSTEXPR(14)	bool  willBeActive			(const StateID stateId)	  const noexcept;
 
 	// - - - - - - - - - - - - - - - - - - - - - - - - - - - - - - - - - - -
 
